@@ -7,6 +7,7 @@ use crate::runner::{DynProp, Session, Tier};
 pub mod c04;
 pub mod c05;
 pub mod c06;
+pub mod c07;
 pub mod c08;
 pub mod c09;
 pub mod c13;
@@ -31,7 +32,7 @@ pub fn no_custom(_: &mut Session, _: &Value) -> bool {
 }
 
 pub fn all() -> Vec<PropertyDef> {
-    vec![c04::def(), c05::def(), c06::def(), c08::def(), c09::def(), c13::def(), c14::def(), c20::def()]
+    vec![c04::def(), c05::def(), c06::def(), c07::def(), c08::def(), c09::def(), c13::def(), c14::def(), c20::def()]
 }
 
 pub fn find(id: &str) -> Option<PropertyDef> {
